@@ -11,7 +11,7 @@ import (
 
 // ---- read-only deviations (C02) ----
 
-const nReadCalls = 12
+const nReadCalls = 12 // calls 0..11 are the single read-only deviations; 12 = read everything (warms the caches)
 
 var readCallNames = [nReadCalls]string{"Get", "Has", "GetWithIndex", "GetByIndex", "Iterate", "Iterator-drain", "Hash", "WorkingHash", "GetProof(working)", "GetVersionedProof", "GetImmutable.Hash", "Export-drain"}
 
@@ -52,6 +52,15 @@ func (w *World) applyRead(op Op) *Violation {
 		if it, err := t.GetImmutable(op.Ver); err == nil {
 			_ = it.Hash()
 		}
+	case 12:
+		// read everything: every retained version is walked through the tree (fills the node cache) and the
+		// working state is read through the index
+		for _, v := range t.AvailableVersions() {
+			if it, err := t.GetImmutable(int64(v)); err == nil {
+				it.IterateRange(nil, nil, true, func(k, _ []byte) bool { _, _ = it.Get(k); return false })
+			}
+		}
+		_, _ = t.Iterate(func(k, v []byte) bool { return false })
 	case 11:
 		if it, err := t.GetImmutable(op.Ver); err == nil {
 			if e, err := it.Export(); err == nil {
@@ -186,6 +195,17 @@ func (w *World) applyExportOpen(op Op) *Violation {
 	e, err := it.Export()
 	if err != nil {
 		return viol("export", "Export(v%d): %v", op.Ver, err)
+	}
+	// Read the stream to its end (the export stays open, i.e. the version stays pinned): this also waits for
+	// the exporter's goroutine, so the instance is quiescent and deterministic when the operation returns.
+	got, err := drainExport(e, false)
+	if err != nil {
+		e.Close()
+		return viol("export", "Export(v%d) stream error: %v", op.Ver, err)
+	}
+	if d := cmpExport(got, ref.Export(w.M.Roots[op.Ver])); d != "" {
+		e.Close()
+		return viol("export", "Export(v%d): %s", op.Ver, d)
 	}
 	w.exps[op.Ver] = append(w.exps[op.Ver], e)
 	w.M.Pins[op.Ver]++
